@@ -443,11 +443,19 @@ def _desugar_comprehension_loops(stmts):
                 any(isinstance(n, ast.Name) and n.id == name for st in nxt.body for n in ast.walk(st))
             if not used_elsewhere:
                 comp, loop = s.value, nxt
-                i += 1
         elif isinstance(s, ast.For) and isinstance(s.iter, (ast.GeneratorExp, ast.ListComp)) and not s.orelse:
             comp, loop = s.iter, s
-        if comp is not None and not _has(ast.Module(body=loop.body, type_ignores=[]), (ast.Break, ast.Continue)):
+        def real_loops(c):
+            k = 0
+            for g_ in c.generators:
+                k += real_loops(g_.iter) if isinstance(g_.iter, (ast.GeneratorExp, ast.ListComp)) else 1
+            return k
+        # 'continue' in the body still means "next element" (the body is the tail of the innermost generated loop);
+        # 'break' only keeps its meaning when a single real loop is generated
+        if comp is not None and (not _has(ast.Module(body=loop.body, type_ignores=[]), ast.Break) or real_loops(comp) == 1):
             out.append(_comp_to_loops(comp, loop.target, _desugar_comprehension_loops(loop.body), loop))
+            if loop is not s:
+                i += 1
         else:
             out.append(s)
         i += 1
